@@ -7,6 +7,7 @@ import (
 	"sync/atomic"
 
 	"github.com/alitto/pond"
+	"github.com/formancehq/ledger/internal/verifhook"
 	"github.com/formancehq/stack/libs/go-libs/logging"
 	"github.com/pkg/errors"
 )
@@ -66,6 +67,7 @@ func (r *Runner[JOB]) Run(ctx context.Context) {
 	jobsErrors := make(chan error, r.nbWorkers)
 
 	w := pond.New(r.nbWorkers, r.nbWorkers)
+	verifhook.Expose(ctx, "job.pool", w)
 	for i := 0; i < r.nbWorkers; i++ {
 		i := i
 		w.Submit(func() {
